@@ -294,7 +294,7 @@ def run(ctx):
                 kk = f"{p}|{nt}" + (f" #{o}" if o else "")
                 if ok:
                     counts["storage invariant" if how == "storage invariant" else "proved"] += 1
-                    ck.ob("R25d", kk, True, f"in bounds ({how})", site=f.where(b), trivial=True)
+                    ck.ob("R25d", kk, True, f"in bounds ({how})", site=f.where(b), detail={"how": how})
                     continue
                 reason = AUDITED_INDEX.get((p, nt))
                 if reason is None:
